@@ -4,8 +4,8 @@
 -/
 import Chrono.Proofs.ParsedL
 import Chrono.Proofs.DateL
-namespace Chrono.Proofs
-open Chrono Chrono.M Chrono.Spec Chrono.Extracted
+namespace Chrono.Proofs.ParsedRes
+open Chrono Chrono.M Chrono.Spec Chrono.Spec.Fields Chrono.Extracted
 
 /-- an existing day of a year of the supported range -/
 def VD (y : Int) (o : Nat) : Prop := MIN_YEAR ≤ y ∧ y ≤ MAX_YEAR ∧ 1 ≤ o ∧ o ≤ yearLen y
@@ -913,4 +913,4 @@ theorem date_not_enough_iff (p : Parsed) (hp : InType p)
       rw [resolve_year_unusable _ _ _ hu1]
 
 
-end Chrono.Proofs
+end Chrono.Proofs.ParsedRes
